@@ -182,6 +182,20 @@ func summaryArgs(c MCmd, doc *ref.Doc, recIdx int, date ref.Date, usePrevious bo
 	return [][]string{nil}, ""
 }
 
+// altsHaveCR: a resumed summary line that ends in a stray CR is written back with the target position's line
+// ending; followed by LF the pair reads as CRLF and the line turns blank, so whether the edit is possible depends on
+// the file's elected line ending. The model does not predict that (the command is counted as not judged).
+func altsHaveCR(alts [][]string) bool {
+	for _, a := range alts {
+		for _, l := range a {
+			if strings.Contains(l, "\r") {
+				return true
+			}
+		}
+	}
+	return false
+}
+
 func newRecord(c MCmd, env MEnv, d ref.Date) ref.Rec {
 	rec := ref.Rec{Date: d, Dashes: true}
 	if env.CfgShould != nil {
@@ -291,6 +305,9 @@ func applyModel(in *ref.Doc, c MCmd, env MEnv) Outcome {
 		if serr != "" {
 			return o.reject(in, serr)
 		}
+		if altsHaveCR(alts) {
+			return Outcome{Undecided: "resumed summary carries a CR"}
+		}
 		idx, created := ensureRecord()
 		ent := ref.Ent{Kind: ref.KOpen, Start: t, DashSpaces: true, Summary: summaryOf(alts[0])}
 		doc.Recs[idx].Entries = append(doc.Recs[idx].Entries, ent)
@@ -332,6 +349,9 @@ func applyModel(in *ref.Doc, c MCmd, env MEnv) Outcome {
 			alts, serr = summaryArgs(c, in, idx, date, false)
 			if serr != "" {
 				return o.reject(in, serr)
+			}
+			if altsHaveCR(alts) {
+				return Outcome{Undecided: "resumed summary carries a CR"}
 			}
 		}
 		old := rec.Entries[oi]
